@@ -66,7 +66,7 @@ func init() {
 				in.VCTimeoutMs = 180000
 			}
 		}})
-	reg(&Oblig{ID: "PDF-D", Pkg: "pdf417", Func: "VP_PDF_rows", Props: []string{"C04", "C12", "C11", "C13", "C10"}, Desc: "EncodeWithColor on class-constrained symbolic content: shape, length descriptor, padding, check codewords, and every module of every row equals the ISO row structure (start, left indicator, data, right indicator, stop, cluster row mod 3, indicator values naming row count, level, column count), each row two pixels high; colours; Content; error exactly when no shape fits",
+	reg(&Oblig{ID: "PDF-D", Pkg: "pdf417", Func: "VP_PDF_rows", Props: []string{"C04", "C12", "C11", "C13"}, Desc: "EncodeWithColor on class-constrained symbolic content: shape, length descriptor, padding, check codewords, and every module of every row equals the ISO row structure (start, left indicator, data, right indicator, stop, cluster row mod 3, indicator values naming row count, level, column count), each row two pixels high; colours; Content; error exactly when no shape fits",
 		Real:  []string{"pdf417.EncodeWithColor", "pdf417.highlevelEncode", "pdf417.encodeData", "pdf417.getLeftCodeWord", "pdf417.getRightCodeWord", "pdf417.getCodeword", "pdf417.renderBarcode", "(*pdfBarcode).At/Bounds/Content/Metadata/ColorModel/ColorScheme"},
 		Stubs: []string{oracle, "content class-constrained (upper-case letters: two per codeword; bytes 0x80..0xBF in multiples of six: byte compaction, all codeword values 0..899 reachable) so that its length fixes the number of data codewords; the data codewords are the library's own highlevelEncode output (guarantee side: PDF-A)", "securitylevel.Compute replaced by the reference remainder (value-preserving; guarantee side: PDF-C)"},
 		Bound: "letters n in {0..12, 25, 40, 80} and high bytes n in {6, 12, 24} x levels spread 0..8 quick; up to 1850 letters / 1100 bytes (row-count boundaries, > 925 codewords rejected) thorough",
